@@ -512,7 +512,13 @@ def _build(api, recs, delimiter, rng, how):
             c0 = api.Converter([mk_record(api, r) for r in pre], delimiter=delimiter)
             c = curies.remap_curie_prefixes(c0, {rng.choice(r0.psyn): r0.prefix})
         if c.delimiter != delimiter:
-            c.delimiter = delimiter  # (derivations return the default delimiter; assigning it is the documented way to change it)
+            try:
+                c.delimiter = delimiter  # (derivations return the default delimiter; assigning it is the way to change it)
+            except AttributeError:
+                # an implementation whose delimiter cannot be assigned (a read-only property): the product cannot be given
+                # the delimiter the case asks for - the circumstance does not exist there
+                probe.S.counters["wl:delimiter-not-assignable"] += 1
+                return _build(api, recs, delimiter, rng, "ctor")
         return c, f"{how}({kind})"
     if how == "via-loader":
         # the map arrives through one of the documented loaders, its entries in a shuffled order (entries of one record
